@@ -476,3 +476,114 @@ add("lpIrfftnHasShapeUtils", "Lowpass", ["C16"], "acryo/_utils.py", "const", [],
     _irfftn_has_s("lowpass_filter", "irfftn"))
 add("lpIrfftnHasShapeBackend", "Lowpass", ["C16"], "acryo/backend/_bandpass.py", "const", [],
     _irfftn_has_s("lowpass_filter", "backend.irfftn"))
+
+
+def _cand_order(t):
+    fn = func(t, "RotationImplemented._get_template_and_mask_input")
+    for n in ordered(fn):
+        if isinstance(n, ast.For):
+            inner = [m for m in n.body if isinstance(m, ast.For)]
+            if inner:
+                o, i = ast.unparse(n.iter), ast.unparse(inner[0].iter)
+                if o == "matrices" and i == "inputs_templates":
+                    return True
+                if o == "inputs_templates" and i == "matrices":
+                    return False
+                raise SelectorMiss(f"unexpected candidate loops {o}/{i}")
+    raise SelectorMiss("nested candidate loops not found")
+
+
+add("candidateRotationMajor", "Decode", ["C06"], "acryo/alignment/_base.py", "const", [], _cand_order)
+
+
+def _group_remainder(t):
+    fn = func(t, "LoaderGroup.align_multi_templates")
+    c = call(fn, "remainders.append")
+    return c.args[0]
+
+
+add("groupRemainder", "Decode", ["C06"], "acryo/loader/_group.py", "expr",
+    [("has_rotation", B), ("T", I)], _group_remainder,
+    subst={"model.has_rotation": "has_rotation", "len(_tmps)": "T"})
+
+
+def _rot_range(t):
+    fn = func(t, "_seq_of_max_and_step_to_quat")
+    c = call(fn, "np.linspace")
+    return [("n", assign_rhs(fn, "n")), ("lo", c.args[0]), ("hi", c.args[1]), ("cnt", c.args[2])], \
+        ["n", "lo", "hi", "cnt"]
+
+
+add("rotRange", "Decode", ["C06"], "acryo/_rotation.py", "lets", [("max_rot", R), ("step", R)],
+    _rot_range)
+
+
+# ---- C08 continued: normal scaling, tilt-model selection, tilt-range validation ----------
+def _normal_scaling(qual, which):
+    """How the wedge normals are combined with the box shape and the inverse rotation.
+    Returns (scale_before_rotation, scale_is_division) as one of two consts."""
+    def sel(t):
+        fn = func(t, qual)
+        rhs = assign_rhs(fn, "normal0")
+        src = ast.unparse(rhs)
+        pats = {
+            "rotator_inv.apply(normal0 * shape_vector)": (True, False),
+            "rotator_inv.apply(normal0 / shape_vector)": (True, True),
+            "rotator_inv.apply(normal0) * shape_vector": (False, False),
+            "rotator_inv.apply(normal0) / shape_vector": (False, True),
+        }
+        if src not in pats:
+            raise SelectorMiss(f"unexpected normal expression {src}")
+        # the second normal must be treated the same way
+        rhs1 = ast.unparse(assign_rhs(fn, "normal1"))
+        if rhs1 != src.replace("normal0", "normal1"):
+            raise SelectorMiss("normal0 / normal1 are scaled differently")
+        return pats[src][which]
+    return sel
+
+
+for _nm, _file, _q in [("Tilt", "acryo/tilt/_single.py", "SingleAxis.create_mask"),
+                       ("TiltNorms", "acryo/tilt/_single.py", "SingleAxis._mask_from_norms"),
+                       ("Backend", "acryo/backend/_missing_wedge.py", "missing_wedge_mask"),
+                       ("Utils", "acryo/_utils.py", "missing_wedge_mask")]:
+    add(f"wedgeScaleBeforeRot{_nm}", "Wedge", ["C08"], _file, "const", [], _normal_scaling(_q, 0))
+    add(f"wedgeScaleIsDiv{_nm}", "Wedge", ["C08"], _file, "const", [], _normal_scaling(_q, 1))
+
+
+def _wedge_pred(qual):
+    def sel(t):
+        return assign_rhs(func(t, qual), "missing")
+    return sel
+
+
+for _nm, _file, _q in [("Tilt", "acryo/tilt/_single.py", "SingleAxis.create_mask"),
+                       ("Backend", "acryo/backend/_missing_wedge.py", "missing_wedge_mask"),
+                       ("Utils", "acryo/_utils.py", "missing_wedge_mask")]:
+    add(f"wedgePredicate{_nm}", "Wedge", ["C08"], _file, "expr", [("dot0", R), ("dot1", R)],
+        _wedge_pred(_q))
+
+
+def _tilt_select(t):
+    fn = func(t, "TomographyInput.__init__")
+    stmts = [n for n in fn.body if isinstance(n, ast.If) and "tilt" in ast.unparse(n.test)]
+    if not stmts:
+        raise SelectorMiss("tilt selection statements")
+    return stmts, ["tilt_model"]
+
+
+add("tiltSelect", "Wedge", ["C08"], "acryo/alignment/_base.py", "func",
+    [("hasRange", B), ("tiltNone", B), ("isModel", B), ("tilt_model", I)], _tilt_select, ret="Int",
+    subst={"tilt_range is not None": "hasRange", "tilt is None": "tiltNone",
+           "isinstance(tilt, TiltSeriesModel)": "isModel",
+           "single_axis(tilt_range)": "selRange", "no_wedge()": "selNone", "tilt": "selModel",
+           "single_axis(tilt)": "selTuple"},
+    consts={"selRange": 1, "selNone": 0, "selModel": 2, "selTuple": 3})
+
+
+def _tilt_validate(t):
+    fn = func(t, "SingleAxis.__init__")
+    return [n for n in fn.body if isinstance(n, ast.If)], []
+
+
+add("tiltRangeValidate", "Wedge", ["C08"], "acryo/tilt/_single.py", "func",
+    [("_min", R), ("_max", R)], _tilt_validate, ret="Unit")
